@@ -124,7 +124,12 @@ def run(report, p):
     for cf, call in callers_of(p, mw.qual):
         g = cfg_of(cf)
         r2.instance(cf, call, norm(call)[:80])
-        vals = [g.node_for(c) for c, tg in p.calls[cf.qual] if any("validate" in t for t in tg if t in p.funcs)]
+        vq = {f2.qual for f2 in p.funcs.values() if f2.cls and f2.module.name.endswith("history") and any(isinstance(n, ast.Compare) and "'new'" in norm(n).replace('"', "'") and ".action" in norm(n) for n in walk_no_nested(f2.node))}
+        if not vq:
+            raise AnalysisError("validator of new hash lists (the function testing `.action == 'new'`) not found")
+        vals = [g.node_for(c) for c, tg in p.calls[cf.qual] if any(t in vq for t in tg)]
+        if not vals and cf.qual in vq:
+            continue  # the validation is done in the writing function itself (helper inlined): R4.5 / R11.6 judge its position
         r2.check(any(g.dominates(v, g.node_for(call)) and v is not g.node_for(call) for v in vals), cf, call, "the manifest writer is not preceded by validation of the new hash list")
 
     # ------------------------------------------------------------------ R15.3
